@@ -276,6 +276,22 @@ impl RawRwLock {
     }
 }
 
+#[cfg(all(smol_rs_async_lock_verif, feature = "std"))]
+impl RawRwLock {
+    /// Verification hook: `(state, mutex state, mutex listeners, no_readers
+    /// listeners, no_writer listeners)`.
+    pub(super) fn verif_state(&self) -> (usize, usize, usize, usize, usize) {
+        let (m, ml) = self.mutex.verif_state();
+        (
+            self.state.load(Ordering::SeqCst),
+            m,
+            ml,
+            self.no_readers.total_listeners(),
+            self.no_writer.total_listeners(),
+        )
+    }
+}
+
 pin_project_lite::pin_project! {
     /// The future returned by [`RawRwLock::read`].
 
